@@ -8,7 +8,7 @@ def reg(pid, fn, level, text, note, technique, design_ref, engine):
 
 
 def load():
-    from checks import stores
+    from checks import stores, smtp
     reg("C07", stores.c07, "model_checking",
         "TLC checks the Mailstore contract (spec/Mailstore.tla, MCMailstore.tla) exhaustively for small constants; TLC then enumerates "
         "every mutator sequence to a bounded depth plus simulated long histories, each is executed on the real memory and file stores, and "
@@ -30,4 +30,11 @@ def load():
         "as C07; reopen is in-process (new Store object on the same path)",
         "TLA+ contract + TLC-generated histories with reopen points replayed on the real file store + TLC trace validation",
         "DESIGN.md 5/C10", "mailstore")
+    reg("C01", smtp.c01, "model_checking",
+        "TLC checks the Smtp contract model (spec/Smtp.tla, GenSmtp.tla: DeliveryExact, NoStoreWithoutAck, FailStoresNothing, AppendOnly) exhaustively, "
+        "enumerates all command sequences to a bounded depth and simulates long multi-transaction dialogues; every dialogue is played against the real "
+        "SMTP server + StoreManager + store, and TLC validates the reply class and the whole store after every line against the contract.",
+        "trusts TLC, the line driver and projection (harness/cmd/vh/smtp.go), the spelling of abstract commands (checks/smtp.py); ordinary addresses only",
+        "TLA+ contract + TLC-generated dialogues replayed on the real server + TLC trace validation",
+        "DESIGN.md 5/C01", "smtp")
     return REG
